@@ -475,7 +475,9 @@ fn conc() {
         .map(|l| serde_json::from_str(l).unwrap())
         .collect();
     let mut o = NdJson::create(&arg("out").unwrap());
-    let ctx = Arc::new(Ctx::new("ready", nmax));
+    let mut ctx = Arc::new(Ctx::new("ready", nmax));
+    // a panic under the channel lock poisons the mutex: the signer object is replaced
+    let is_panic = |v: &Value| v["err"].as_str().unwrap_or("").starts_with("PANIC");
     let s0 = ctx.snap();
     let mut runs = 0u64;
     for (ci, case) in cases.iter().enumerate() {
@@ -483,8 +485,17 @@ fn conc() {
         let reqs = [case["a"].clone(), case["b"].clone()];
         // reach the start state sequentially (untraced)
         ctx.restore(&s0);
+        let mut skip = false;
         for r in prefix {
-            ctx.apply(r);
+            if is_panic(&ctx.apply(r)) {
+                skip = true;
+                break;
+            }
+        }
+        if skip {
+            // the behaviour's prefix contains a request that aborts the signer: not a start state
+            ctx = Arc::new(Ctx::new("ready", nmax));
+            continue;
         }
         let start = ctx.snap();
         let pre = project(&start, nmax);
@@ -496,10 +507,18 @@ fn conc() {
             set_lock_tracer(Some(tr.clone()));
             TID.with(|t| t.set(0));
             NACQ.with(|c| c.set(0));
-            ctx.apply(&reqs[i]);
+            let v = ctx.apply(&reqs[i]);
             nacq[i] = NACQ.with(|c| c.get());
             TID.with(|t| t.set(usize::MAX));
             set_lock_tracer(None);
+            if is_panic(&v) {
+                skip = true;
+                ctx = Arc::new(Ctx::new("ready", nmax));
+            }
+        }
+        if skip {
+            // one of the two requests aborts the signer when run alone: no concurrent runs
+            continue;
         }
         // sequential baselines on the real implementation: a;b and b;a
         let strip0 = |v: &Value| json!({"ok": v["ok"], "sec": v["sec"], "pt": v["pt"], "flag": v["flag"]});
@@ -592,12 +611,131 @@ fn conc() {
     println!("{}", json!({"runs": runs, "cases": cases.len(), "stuck": false}));
 }
 
+/// Linearizability leg at node level: pairs of Node.tla requests run concurrently on one real
+/// node (fresh node per run, prefix re-executed), one thread held before each of its lock
+/// acquisitions in turn while the other runs; sequential baselines a;b and b;a from the same node.
+fn conc_node() {
+    use vls_verif_harness::nodelib as nl;
+    let cases: Vec<Value> = std::fs::read_to_string(arg("cases").unwrap())
+        .unwrap()
+        .lines()
+        .filter(|l| !l.trim().is_empty())
+        .map(|l| serde_json::from_str(l).unwrap())
+        .collect();
+    let mut o = NdJson::create(&arg("out").unwrap());
+    let mut runs = 0u64;
+    let build = |prefix: &Vec<Value>| -> NodeFx {
+        let fx = NodeFx::new(Network::Regtest, None);
+        for r in prefix {
+            nl::apply(&fx, r);
+        }
+        fx
+    };
+    let strip = |v: &Value| json!({"ok": v["ok"], "flag": v["flag"]});
+    for (ci, case) in cases.iter().enumerate() {
+        let prefix: Vec<Value> = case["prefix"].as_array().unwrap().clone();
+        let reqs = [case["a"].clone(), case["b"].clone()];
+        let pre = nl::project(&build(&prefix));
+        let mut nacq = [0usize; 2];
+        for i in 0..2 {
+            let fx = build(&prefix);
+            let tr = Arc::new(Tracer::new(1));
+            set_lock_tracer(Some(tr.clone()));
+            TID.with(|t| t.set(0));
+            NACQ.with(|c| c.set(0));
+            nl::apply(&fx, &reqs[i]);
+            nacq[i] = NACQ.with(|c| c.get());
+            TID.with(|t| t.set(usize::MAX));
+            set_lock_tracer(None);
+        }
+        let mut seqs = vec![];
+        for order in [[0usize, 1usize], [1, 0]] {
+            let fx = build(&prefix);
+            let r1 = nl::apply(&fx, &reqs[order[0]]);
+            let r2 = nl::apply(&fx, &reqs[order[1]]);
+            let (ra, rb) = if order[0] == 0 { (r1, r2) } else { (r2, r1) };
+            seqs.push(json!({"ra": strip(&ra), "rb": strip(&rb), "post": nl::project(&fx)}));
+        }
+        for held in 0..2usize {
+            for k in 0..=nacq[held] {
+                let fx = Arc::new(build(&prefix));
+                let tr = Arc::new(Tracer::new(2));
+                tr.stop_at[held].store(k, Ordering::SeqCst);
+                set_lock_tracer(Some(tr.clone()));
+                let results: Arc<StdMutex<Vec<Option<Value>>>> = Arc::new(StdMutex::new(vec![None, None]));
+                let spawn = |i: usize| {
+                    let fx = fx.clone();
+                    let r = reqs[i].clone();
+                    let results = results.clone();
+                    std::thread::spawn(move || {
+                        TID.with(|t| t.set(i));
+                        NACQ.with(|c| c.set(0));
+                        let v = nl::apply(&fx, &r);
+                        results.lock().unwrap()[i] = Some(v);
+                    })
+                };
+                let h1 = spawn(held);
+                let t = Instant::now();
+                while !tr.arrived[held].load(Ordering::SeqCst)
+                    && results.lock().unwrap()[held].is_none()
+                    && t.elapsed() < Duration::from_secs(2)
+                {
+                    std::thread::yield_now();
+                }
+                let other = 1 - held;
+                let h2 = spawn(other);
+                let t = Instant::now();
+                while results.lock().unwrap()[other].is_none() && t.elapsed() < Duration::from_millis(25) {
+                    std::thread::yield_now();
+                }
+                let through = results.lock().unwrap()[other].is_some();
+                {
+                    *tr.gate.0.lock().unwrap() = true;
+                    tr.gate.1.notify_all();
+                }
+                let t = Instant::now();
+                let mut stuck = false;
+                loop {
+                    let g = results.lock().unwrap();
+                    if g[0].is_some() && g[1].is_some() {
+                        break;
+                    }
+                    drop(g);
+                    if t.elapsed() > Duration::from_secs(3) {
+                        stuck = true;
+                        break;
+                    }
+                    std::thread::yield_now();
+                }
+                set_lock_tracer(None);
+                if stuck {
+                    o.put(&json!({"case": ci, "held": held, "k": k, "stuck": true, "pre": pre, "a": reqs[0], "b": reqs[1]}));
+                    o.finish();
+                    println!("{}", json!({"runs": runs, "stuck": true}));
+                    std::process::exit(0);
+                }
+                let _ = h1.join();
+                let _ = h2.join();
+                let res = results.lock().unwrap().clone();
+                o.put(&json!({"case": ci, "held": held, "k": k, "stuck": false, "other_ran_through": through,
+                              "pre": pre, "a": reqs[0], "b": reqs[1],
+                              "ra": strip(res[0].as_ref().unwrap()), "rb": strip(res[1].as_ref().unwrap()),
+                              "post": nl::project(&fx), "sab": seqs[0], "sba": seqs[1]}));
+                runs += 1;
+            }
+        }
+    }
+    o.finish();
+    println!("{}", json!({"runs": runs, "cases": cases.len(), "stuck": false}));
+}
+
 fn main() {
     quiet_panics();
     match std::env::args().nth(1).unwrap_or_default().as_str() {
         "record" => record(),
         "confirm" => confirm(),
         "conc" => conc(),
+        "conc-node" => conc_node(),
         _ => {
             eprintln!("usage: locks record|confirm ...");
             std::process::exit(2);
